@@ -1,6 +1,6 @@
 (* C08: the chunked aggregate pipeline L2 (Pipe.v) computes the reference semantics L1 (Model.agg_group). *)
 From Coq Require Import ZArith List Bool Lia Permutation Sorted.
-From OG Require Import C08.Model C08.Proofs C08.Pipe.
+From OG Require Import C08.Model C08.Proofs C08.Pipe C08.DescMerge.
 Import ListNotations.
 Open Scope Z_scope.
 
@@ -1403,7 +1403,9 @@ Proof.
   assert (G : map (fun k => (k, l2_group_rows q pl k)) (keys_of q db) =
               map (fun k => (k, group_rows true q (members q db k))) (keys_of q db)).
   { apply map_ext_in. intros k Hk. f_equal. unfold l2_group_rows, group_rows. destruct (q_sel q) as [cols|aggs].
-    - cbv zeta. rewrite (plain_pipeline_refines_eval_lemma q cols (pl_parts pl k) (members q db k) (HP k Hk)). reflexivity.
+    - destruct (q_desc q).
+      + apply plain_pipeline_desc_lemma. now apply HP.
+      + apply plain_pipeline_refines_eval_lemma. now apply HP.
     - destruct (q_desc q) eqn:Hd.
       + apply l2_agg_group_desc_lemma; auto.
       + apply l2_agg_group_asc_lemma; auto. }
